@@ -93,7 +93,7 @@ class Fwd:
             if isinstance(st, ast.Expr):
                 self.effects.append((list(conds), canon(subst_expr(st.value, env))))
                 continue
-            if isinstance(st, ast.Pass):
+            if isinstance(st, (ast.Pass, ast.Assert, ast.Global, ast.Nonlocal)):
                 continue
             if isinstance(st, ast.Delete):
                 continue
